@@ -205,8 +205,10 @@ impl HeightField {
 
     /// The range of segment ids that may intersect the given local Aabb.
     pub fn unclamped_elements_range_in_local_aabb(&self, aabb: &Aabb) -> Range<isize> {
-        let ref_mins = aabb.mins.coords.component_div(&self.scale);
-        let ref_maxs = aabb.maxs.coords.component_div(&self.scale);
+        // NOTE: a negative scale factor mirrors the box in the unscaled frame: re-order its corners component-wise.
+        let ref_a = aabb.mins.coords.component_div(&self.scale);
+        let ref_b = aabb.maxs.coords.component_div(&self.scale);
+        let (ref_mins, ref_maxs) = (ref_a.inf(&ref_b), ref_a.sup(&ref_b));
         let seg_length = 1.0 / (self.heights.len() as Real - 1.0);
 
         let min_x = self.quantize_floor_unclamped(ref_mins.x, seg_length);
@@ -216,8 +218,10 @@ impl HeightField {
 
     /// Applies `f` to each segment of this heightfield that intersects the given `aabb`.
     pub fn map_elements_in_local_aabb(&self, aabb: &Aabb, f: &mut impl FnMut(u32, &Segment)) {
-        let ref_mins = aabb.mins.coords.component_div(&self.scale);
-        let ref_maxs = aabb.maxs.coords.component_div(&self.scale);
+        // NOTE: a negative scale factor mirrors the box in the unscaled frame: re-order its corners component-wise.
+        let ref_a = aabb.mins.coords.component_div(&self.scale);
+        let ref_b = aabb.maxs.coords.component_div(&self.scale);
+        let (ref_mins, ref_maxs) = (ref_a.inf(&ref_b), ref_a.sup(&ref_b));
         let seg_length = 1.0 / (self.heights.len() as Real - 1.0);
 
         if ref_maxs.x < -0.5 || ref_mins.x > 0.5 {
